@@ -30,6 +30,18 @@ use std::sync::atomic::{AtomicBool, AtomicU64, Ordering};
 #[cfg(feature = "vector-index")]
 use crate::index::vector::HnswIndex;
 
+/// Whether `==` on this value differs from bit-pattern equality: it contains a float NaN
+/// (never equal to itself) or a float zero (+0.0 == -0.0).
+fn has_non_reflexive_float(value: &Value) -> bool {
+    match value {
+        Value::Float64(f) => f.is_nan() || *f == 0.0,
+        Value::List(items) => items.iter().any(has_non_reflexive_float),
+        Value::Map(map) => map.values().any(has_non_reflexive_float),
+        Value::Vector(v) => v.iter().any(|f| f.is_nan() || *f == 0.0),
+        _ => false,
+    }
+}
+
 /// Compares two values for ordering (used for range checks).
 fn compare_values_for_range(a: &Value, b: &Value) -> Option<CmpOrdering> {
     match (a, b) {
@@ -1165,7 +1177,9 @@ impl LpgStore {
             let key = PropertyKey::new(*prop);
             let hv = HashableValue::new(value.clone());
 
-            if let Some(index) = indexes.get(&key) {
+            if let Some(index) = indexes.get(&key)
+                && !has_non_reflexive_float(value)
+            {
                 let matches: Vec<NodeId> = index
                     .get(&hv)
                     .map(|nodes| nodes.iter().copied().collect())
@@ -1322,9 +1336,12 @@ impl LpgStore {
         let key = PropertyKey::new(property);
         let hv = HashableValue::new(value.clone());
 
-        // Try indexed lookup first
+        // Try indexed lookup first.  The index keys compare floats by bit pattern, the scan
+        // below by `==`; the two differ on NaN and on +0.0/-0.0, so such values are scanned.
         let indexes = self.property_indexes.read();
-        if let Some(index) = indexes.get(&key) {
+        if let Some(index) = indexes.get(&key)
+            && !has_non_reflexive_float(value)
+        {
             if let Some(nodes) = index.get(&hv) {
                 return nodes.iter().copied().collect();
             }
